@@ -133,6 +133,36 @@ MUTANTS = [
     ('C06', 'undo-packed-allowed', FS,
      "        if th.status != \" \":\n            raise UndoError('non-undoable transaction')",
      "        if False:\n            raise UndoError('non-undoable transaction')"),
+    ('C02', 'poll-without-max', MV,
+     "self._start = p64(u64(max(ltid, self._ltid)) + 1)",
+     "self._start = p64(u64(ltid) + 1)"),
+    # (calling f(tid) after _finish but still inside write_lock + _lock is
+    # unobservable: readers and lastTransaction() are excluded until the
+    # locks are released; the mutant below moves it outside)
+    ('C02', 'invalidate-after-locks-released', FS,
+     ("                    if f is not None:\n                        f(tid)\n"
+      "                    self._finish(tid, *self._ude)",
+      "                    self._commit_lock.release()\n        return tid\n\n    def _finish("),
+     ("                    self._finish(tid, *self._ude)",
+      "                    self._commit_lock.release()\n        if f is not None:\n            f(tid)\n        return tid\n\n    def _finish(")),
+    ('C02', 'finish-without-write-lock', FS,
+     "    def tpc_finish(self, transaction, f=None):\n        with self._files.write_lock():",
+     "    def tpc_finish(self, transaction, f=None):\n        with contextlib.nullcontext():"),
+    ('C02', 'open-skips-boundary', CN,
+     "            self.newTransaction(None, False)\n\n        transaction_manager.registerSynch(self)",
+     "            pass\n\n        transaction_manager.registerSynch(self)"),
+    ('C02', 'boundary-keeps-cache', CN,
+     "            invalidated = self._cache.cache_data.copy()\n        self._cache.invalidate(invalidated)",
+     "            invalidated = self._cache.cache_data.copy()\n        pass"),
+    ('C02', 'load-ignores-snapshot', MV,
+     "        r = self._storage.loadBefore(oid, self._start)\n        if r is None:\n            # object was deleted",
+     "        r = self._storage.loadBefore(oid, b'\\x7f' + b'\\xff' * 7)\n        if r is None:\n            # object was deleted"),
+    ('C02', 'mapping-finish-invalidates-late', MS,
+     "        tid = self._tid\n        func(tid)\n\n        tdata = self._tdata",
+     "        tid = self._tid\n\n        tdata = self._tdata"),
+    ('C02', 'invalidate-skips-last-instance', MV,
+     "            for instance in self._instances:\n                if instance is not committing_instance:\n                    instance._invalidate(tid, oids)",
+     "            for instance in list(self._instances)[:-1]:\n                if instance is not committing_instance:\n                    instance._invalidate(tid, oids)"),
 ]
 
 
@@ -140,11 +170,15 @@ def apply(src, rel, old, new):
     p = os.path.join(src, rel)
     with open(p) as f:
         s = f.read()
-    if s.count(old) != 1:
-        raise RuntimeError('mutant anchor occurs %d times in %s'
-                           % (s.count(old), rel))
+    if not isinstance(old, tuple):
+        old, new = (old,), (new,)
+    for o, n in zip(old, new):
+        if s.count(o) != 1:
+            raise RuntimeError('mutant anchor occurs %d times in %s'
+                               % (s.count(o), rel))
+        s = s.replace(o, n)
     with open(p, 'w') as f:
-        f.write(s.replace(old, new))
+        f.write(s)
 
 
 def run_mutant(prop, name, rel, old, new, runs=None):
